@@ -867,6 +867,20 @@ func (h *HistRunner) GenStep(r *Rng, nsess int, profile string) string {
 		if r.Chance(1, 3) {
 			fl += " " + Pick(r, storeFlagPool)
 		}
+		if j := r.Intn(nsess); j != i && r.Chance(1, 4) && h.sess[j] != nil && h.sess[j].selected == s.selected && !h.sess[j].idle && !h.sess[j].readOnly && len(h.sess[j].mirror.msgs) > 0 {
+			// pattern: both views are brought up to date, another session changes a message (often its \Deleted state), the
+			// change is delivered to this session but not yet flushed into its view, and this session's next command is a
+			// STORE on the same message decided from the stale view: what is written to the index must not depend on it
+			k := r.Range(1, min(n, len(h.sess[j].mirror.msgs)))
+			fop := Pick(r, []string{"+FLAGS", "-FLAGS", "+FLAGS.SILENT", "-FLAGS.SILENT"})
+			ffl := Pick(r, []string{`\Deleted`, `\Deleted`, `\Seen`, `\Flagged \Deleted`})
+			h.followUp = append(h.followUp,
+				fmt.Sprintf("S%d CMD NOOP NOOP", i), fmt.Sprintf("S%d CMD NOOP NOOP", j),
+				fmt.Sprintf("S%d CMD STORE STORE %d %s (%s)", j, k, fop, ffl), "X BARRIER",
+				fmt.Sprintf("S%d CMD STORE STORE %d %s (%s)", i, k, op, fl),
+				"X BARRIER", fmt.Sprintf("S%d PROBE", i), fmt.Sprintf("S%d PROBE", j))
+			return "X BARRIER"
+		}
 		if op == "FLAGS" && n >= 2 && r.Chance(1, 2) {
 			// pattern: replace the flags of several messages at once, then read one body (\Seen side effect) and probe:
 			// catches flag sets shared by reference between messages or sessions
